@@ -66,7 +66,7 @@ CLAIMED = {
         ref='DESIGN.md section 7 C02'),
     'C07': dict(
         text='On every feasible path of the loading entry points run on symbolic texts (fully symbolic '
-             'lines and templates through the whole loader), symbolic override specifiers and all include '
+             'lines and templates through the whole loader, directive names of 6-7 symbolic characters), symbolic override specifiers and all include '
              'graphs over three in-memory resources, symbolic %include arguments (package: URLs, //authority, '
              'http://, fragments, plain tails; urljoin/urldefrag executed symbolically through an instrumented '
              'copy of urllib/parse.py) and ZConfig.validator.main (schema from memory, configuration on stdin), '
@@ -95,7 +95,7 @@ CLAIMED = {
              'fragments that are unbalanced with respect to section nesting are rejected.',
         note='trusted: z3, engine models (replayed per path); the oracle is the real code on the inlined '
              'spelling; openResource replaced by in-memory resources; include arguments concrete; cuts = every '
-             'balanced line range of 5 base texts x 3-4 placements, nested and disjoint pairs, unbalanced ranges, '
+             'balanced line range of 7 base texts (one with a %define inside a section) x 3-4 placements, references with blanks / $ / percent escapes, nested and disjoint pairs, unbalanced ranges, '
              'fragments leaving their own section open',
         ref='DESIGN.md section 7 C06'),
     'C08': dict(
@@ -172,13 +172,13 @@ CLAIMED = {
              'which section-datatype call), every feasible fault point is explored as a path: all objects created '
              'through createResource are closed and all URL streams are closed when the call returns or raises, '
              'and a following clean load gives the fresh outcome.',
-        note='scenarios include ONE SchemaLoader serving two loads of the same URL (cache hit; failed first load); '
+        note='scenarios include resources named *.gz, data: URLs, an include cycle, ONE SchemaLoader serving two loads of the same URL (cache hit; failed first load); '
              'trusted: the tracking wrappers around createResource (documented override point) and urlopen; the '
              'fault spaces are finite and enumerated exhaustively through the solver; real file I/O is concrete',
         ref='DESIGN.md section 7 C19'),
     'C10': dict(
         text='For the enumerated schema-document templates (element sequences with symbolic attribute values: '
-             'names, attribute, required, type, extends, implements, default keys, datatype / keytype / handler '
+             'names, attribute, required, type / extends / implements (also over non-ASCII letters), default keys (also inherited under a derived key type), datatype / keytype / handler '
              'names, stray text) z3 shows on every path of the real SAX handler and info constructors that the '
              'document is accepted exactly when a reference model of the static rules accepts it, and that a '
              'rejection is a SchemaError raised while loading; every replayed witness is rendered to XML and '
@@ -188,7 +188,7 @@ CLAIMED = {
              'attribute value is additionally tried empty and absent',
         ref='DESIGN.md section 7 C10'),
     'C11': dict(
-        text='Differential: for six composed/expanded schema pairs (extends chain of length 3 with key-type '
+        text='Differential: for the composed/expanded schema pairs of vf/harness/c11.py (a self-nesting type extended twice; extends chain of length 3 with key-type '
              'override, inherited datatype, wildcard defaults re-normalised, implements not inherited; prefixes '
              'nested to depth 3; schema-level extends of in-memory bases in sub/parent directories, two levels '
              'deep with key type and datatype declared by the root only, three bases side by side; a diamond of '
@@ -211,11 +211,11 @@ CLAIMED = {
         note='trusted: z3, engine models (replayed per path), conformance oracle; package names concrete',
         ref='DESIGN.md section 7 C12'),
     'C13': dict(
-        text='Histories of up to 3 (thorough 4) operations, each chosen by a z3 integer from 20 operations {valid '
+        text='Histories of up to 3 (thorough 4) operations, each chosen by a z3 integer from 22 operations {valid '
              'loads + mutation of every reachable list/dict, valid loads using every kind of default (lists, '
              'keyed wildcard maps, string-list), syntax / matching / conversion / section-datatype failures, a '
              'section using a name reserved by a key and vice versa, %import loads (datatype names differing in case, a stock '
-             'datatype named by dotted path), loads with overrides (also into a keyed-default map), items without defaults}, '
+             'datatype named by dotted path, a component type extending a schema type), loads with overrides (also into a keyed-default map), items without defaults}, '
              'run against ONE schema object; every step equals the same load against a fresh schema - value tree, or error '
              'class AND error text; a separate obligation compares a structural digest '
              'of the schema before and after (known finding F10).',
